@@ -31,6 +31,8 @@ impl Default for Covercrypt {
 
 impl Covercrypt {
     pub fn rng(&self) -> MutexGuard<CsRng> {
+        #[cfg(feature = "verif-hooks")]
+        crate::verif_hooks::lock_event("rng");
         self.rng.lock().expect("poisoned mutex")
     }
 
@@ -39,6 +41,8 @@ impl Covercrypt {
     /// Generates a MSK and a MPK only holing broadcasting keys, and with a
     /// tracing level of [`MIN_TRACING_LEVEL`](core::MIN_TRACING_LEVEL).
     pub fn setup(&self) -> Result<(MasterSecretKey, MasterPublicKey), Error> {
+        #[cfg(feature = "verif-hooks")]
+        crate::verif_hooks::lock_event("setup");
         let mut rng = self.rng.lock().expect("Mutex lock failed!");
         let mut msk = setup(MIN_TRACING_LEVEL, &mut *rng)?;
         let rights = msk.access_structure.omega()?;
@@ -63,6 +67,8 @@ impl Covercrypt {
     // TODO: this function should be internalized and replaced by specialized
     // functions.
     pub fn update_msk(&self, msk: &mut MasterSecretKey) -> Result<MasterPublicKey, Error> {
+        #[cfg(feature = "verif-hooks")]
+        crate::verif_hooks::lock_event("update_msk");
         update_msk(
             &mut *self.rng.lock().expect("Mutex lock failed!"),
             msk,
@@ -81,6 +87,8 @@ impl Covercrypt {
         msk: &mut MasterSecretKey,
         ap: &AccessPolicy,
     ) -> Result<MasterPublicKey, Error> {
+        #[cfg(feature = "verif-hooks")]
+        crate::verif_hooks::lock_event("rekey");
         rekey(
             &mut *self.rng.lock().expect("Mutex lock failed!"),
             msk,
@@ -114,6 +122,8 @@ impl Covercrypt {
         msk: &mut MasterSecretKey,
         ap: &AccessPolicy,
     ) -> Result<UserSecretKey, Error> {
+        #[cfg(feature = "verif-hooks")]
+        crate::verif_hooks::lock_event("usk_keygen");
         usk_keygen(
             &mut *self.rng.lock().expect("Mutex lock failed!"),
             msk,
@@ -139,6 +149,8 @@ impl Covercrypt {
         usk: &mut UserSecretKey,
         keep_old_secrets: bool,
     ) -> Result<(), Error> {
+        #[cfg(feature = "verif-hooks")]
+        crate::verif_hooks::lock_event("refresh_usk");
         refresh(
             &mut *self.rng.lock().expect("Mutex lock failed!"),
             msk,
@@ -156,6 +168,8 @@ impl Covercrypt {
         encapsulation: &XEnc,
     ) -> Result<(Secret<32>, XEnc), Error> {
         let (_ss, rights) = full_decaps(msk, encapsulation)?;
+        #[cfg(feature = "verif-hooks")]
+        crate::verif_hooks::lock_event("recaps");
         primitives::encaps(
             &mut *self.rng.lock().expect("Mutex lock failed!"),
             mpk,
@@ -175,6 +189,8 @@ impl KemAc<SHARED_SECRET_LENGTH> for Covercrypt {
         ek: &Self::EncapsulationKey,
         ap: &AccessPolicy,
     ) -> Result<(Secret<SHARED_SECRET_LENGTH>, Self::Encapsulation), Self::Error> {
+        #[cfg(feature = "verif-hooks")]
+        crate::verif_hooks::lock_event("encaps");
         primitives::encaps(
             &mut *self.rng.lock().expect("Mutex lock failed!"),
             ek,
@@ -187,6 +203,8 @@ impl KemAc<SHARED_SECRET_LENGTH> for Covercrypt {
         dk: &Self::DecapsulationKey,
         enc: &Self::Encapsulation,
     ) -> Result<Option<Secret<SHARED_SECRET_LENGTH>>, Error> {
+        #[cfg(feature = "verif-hooks")]
+        crate::verif_hooks::lock_event("decaps");
         primitives::decaps(&mut *self.rng.lock().expect("Mutex lock failed!"), dk, enc)
     }
 }
@@ -208,6 +226,8 @@ impl<const KEY_LENGTH: usize, E: AE<KEY_LENGTH, Error = Error>> PkeAc<KEY_LENGTH
         let (seed, enc) = self.encaps(mpk, ap)?;
         // Locking Covercrypt RNG must be performed after encapsulation since
         // this encapsulation also requires locking the RNG.
+        #[cfg(feature = "verif-hooks")]
+        crate::verif_hooks::lock_event("encrypt_relock");
         let mut rng = self.rng.lock().expect("poisoned lock");
         let key = SymmetricKey::derive(&seed, b"Covercrypt AE key")?;
         E::encrypt(&mut *rng, &key, ptx).map(|ctx| (enc, ctx))
